@@ -391,6 +391,11 @@ def spec_api(I, name, args):
         a, idx, v = args
         it = idx.term if isinstance(idx, KeyVal) else (_keyterm(I, idx) if isinstance(idx, VTuple) else _int(idx))
         return VArr(z3.Store(a.t, it, _int(v)))
+    if name == 'sort_source':
+        sq = args[0]
+        if not hasattr(sq, 'sort_perm'):
+            raise Unsupported('sort_source of a sequence that is not the result of a sort')
+        return VInt(sq.sort_perm(_int(args[1])))
     if name == 'kat':
         kv = KeyVal(z3.Select(args[0].arr, _int(args[1])))
         kv.arity = args[0].arity
@@ -524,4 +529,4 @@ def choose_patterns(bound, body, max_alternatives=4):
     return alts or None
 
 
-SPEC_API = {'kat', 'mhas', 'mget', 'key_part', 'same', 'at', 'ghost_zero_int', 'ghost_zero_key', 'mk_key', 'blen', 'bat', 'dcount', 'dord', 'smem', 'llen', 'lat', 'sel', 'upd', 'forall'}
+SPEC_API = {'sort_source', 'kat', 'mhas', 'mget', 'key_part', 'same', 'at', 'ghost_zero_int', 'ghost_zero_key', 'mk_key', 'blen', 'bat', 'dcount', 'dord', 'smem', 'llen', 'lat', 'sel', 'upd', 'forall'}
